@@ -3,13 +3,18 @@ Anything not listed evaluates to Top (fail closed)."""
 import copy, re
 from sym import *
 import sym
-from evalr import (fcopy, SeqV, RefV, Cell, StructV, EnumV, TupleV, DynV, ClosureV, IterV, RangeV, SliceV, Top, UNIT,
+from evalr import (flatten_stores, fcopy, SeqV, RefV, Cell, StructV, EnumV, TupleV, DynV, ClosureV, IterV, RangeV, SliceV, Top, UNIT,
                    OuterSink, is_term, seqlen, seglen, norm_segs, int_bits, S_of, FieldPlace, IndexPlace)
 from ir import norm_ty, strip_refs, split_generics
 
 def deref(v):
     while isinstance(v, RefV): v = v.place.get()
     return v
+
+def _tgt(v):
+    """identity of the object a mutation event is about (the underlying sequence for a view)"""
+    if isinstance(v, SliceV): v = v.seq
+    return getattr(v, 'uid', None)
 
 def opt_none(ty=None): return EnumV('core::option::Option', 'None', {}, ty=ty)
 def opt_some(v, ty=None): return EnumV('core::option::Option', 'Some', {'0': v}, ty=ty)
@@ -26,12 +31,13 @@ def call(I, name, args, e):
     ty = norm_ty(e.get('ty', ''))
 
     # ---------------- conversions: identity between uN and zerocopy UN<LE>, widening
-    if n in ('<T as core::convert::Into<U>>::into', '<T as core::convert::From<T>>::from') or n.startswith('core::convert::num::<impl core::convert::From<') or n.startswith('zerocopy::byteorder::<impl core::convert::From<'):
-        src = norm_ty(e['args'][0]['ty'])
+    if n in ('<T as core::convert::Into<U>>::into', '<T as core::convert::From<T>>::from', 'core::convert::Into::into', 'core::convert::From::from') or n.startswith('core::convert::num::<impl core::convert::From<') or n.startswith('zerocopy::byteorder::<impl core::convert::From<'):
+        src = norm_ty(I.resolve_ty(e['args'][0]['ty'])); ty = norm_ty(I.resolve_ty(ty))
         if is_term(a0):
             sb, tb = int_bits(src), int_bits(ty)
             if sb and tb and tb >= sb: return a0
             if sb and tb and tb < sb: return I.top('narrowing into()', e)
+        if src == 'bool' and int_bits(ty) and is_term(a0): return a0     # From<bool>: false -> 0, true -> 1
         if src == ty: return args[0]
         # user From impl
         d = I.f.method('core::convert::From', ty, 'from')
@@ -45,13 +51,13 @@ def call(I, name, args, e):
 
     # ---------------- mem::replace / swap / take on places
     if n == 'core::mem::replace' and isinstance(args[0], RefV):
-        old = args[0].place.get(); args[0].place.set(args[1]); I.log.append(('mutate', n, e.get('sp'))); return old
+        old = args[0].place.get(); args[0].place.set(args[1]); I.log.append(('mutate', n, e.get('sp'), _tgt(a0))); return old
     if n == 'core::mem::swap' and isinstance(args[0], RefV) and isinstance(args[1], RefV):
-        x, y = args[0].place.get(), args[1].place.get(); args[0].place.set(y); args[1].place.set(x); I.log.append(('mutate', n, e.get('sp'))); return UNIT
+        x, y = args[0].place.get(), args[1].place.get(); args[0].place.set(y); args[1].place.set(x); I.log.append(('mutate', n, e.get('sp'), _tgt(a0))); return UNIT
     if n == 'core::mem::take' and isinstance(args[0], RefV):
         old = args[0].place.get(); dv = default_value(I, ty, e)
         if isinstance(dv, Top): return dv
-        args[0].place.set(dv); I.log.append(('mutate', n, e.get('sp'))); return old
+        args[0].place.set(dv); I.log.append(('mutate', n, e.get('sp'), _tgt(a0))); return old
 
     # ---------------- size_of / default
     if n == 'core::mem::size_of':
@@ -59,6 +65,12 @@ def call(I, name, args, e):
         if sz is None: sz = I.size_of_ty(e['generics'][0])
         if sz is None: return ('call', 'size_of', ('a', I.resolve_ty(e['generics'][0])))
         return C(sz)
+    if n == 'core::mem::size_of_val':
+        t_ = strip_refs(norm_ty(I.resolve_ty(e['args'][0].get('ty', ''))))
+        sz = I.size_of_ty(t_)
+        if sz is not None: return C(sz)
+        if isinstance(a0, SeqV): return mul(seqlen(a0.segs), C(1)) if a0.is_bytes() else I.top('size_of_val of a non-byte slice', e)
+        return I.top('size_of_val of %s' % t_, e)
     if 'core::default::Default' in n and n.endswith('::default'):
         return default_value(I, ty, e)
 
@@ -67,7 +79,7 @@ def call(I, name, args, e):
         _, ga = split_generics(ty)
         return SeqV(ga[0] if ga else 'u8', [])
     if n == 'alloc::vec::Vec::<T, A>::push':
-        I.log.append(('mutate', n, e.get('sp')))
+        I.log.append(('mutate', n, e.get('sp'), _tgt(a0)))
         s = a0; v = args[1]
         if not isinstance(s, SeqV): return I.top('push on %r' % (s,), e)
         if s.is_bytes():
@@ -77,17 +89,20 @@ def call(I, name, args, e):
             s.segs.append(('elem', v))
         return UNIT
     if n == 'alloc::vec::Vec::<T, A>::extend_from_slice':
-        I.log.append(('mutate', n, e.get('sp')))
+        I.log.append(('mutate', n, e.get('sp'), _tgt(a0)))
         s = a0; src = deref(args[1])
         if isinstance(src, SliceV):
             r = I.slice_segs(src)
             if r is None: return I.top('extend_from_slice of unresolved sub-slice', e)
             s.segs.extend(r); return UNIT
         if not isinstance(s, SeqV) or not isinstance(src, SeqV): return I.top('extend_from_slice', e)
-        if src.stores: return I.top('extend_from_slice from a stored-to source', e)   # stores into the destination address earlier positions only
+        if src.stores:
+            fl = flatten_stores(src)
+            if fl is None: return I.top('extend_from_slice from a stored-to source', e)   # stores into the destination address earlier positions only
+            s.segs.extend(norm_segs(fl)); return UNIT
         s.segs.extend(src.segs); return UNIT
     if n == 'alloc::vec::Vec::<T, A>::append':
-        I.log.append(('mutate', n, e.get('sp')))
+        I.log.append(('mutate', n, e.get('sp'), _tgt(a0)))
         s = a0; src = deref(args[1])
         if not isinstance(s, SeqV) or not isinstance(src, SeqV) or src.stores or s.stores: return I.top('append', e)
         s.segs.extend(src.segs); src.segs = []; return UNIT
@@ -105,7 +120,7 @@ def call(I, name, args, e):
     if n == '<alloc::vec::Vec<T, A> as core::clone::Clone>::clone':
         return fcopy(a0)
     if n == 'alloc::vec::Vec::<T, A>::resize':
-        I.log.append(('mutate', n, e.get('sp')))
+        I.log.append(('mutate', n, e.get('sp'), _tgt(a0)))
         s = a0; newlen = args[1]; v = args[2]
         cur = seqlen(s.segs)
         d = sub(newlen, cur)
@@ -145,7 +160,7 @@ def call(I, name, args, e):
             if is_term(idx): return RefV(IndexPlace(I, s, idx))
         return I.top('index of %r by %r' % (s, idx), e)
     if n == 'core::slice::<impl [T]>::copy_from_slice':
-        I.log.append(('mutate', n, e.get('sp')))
+        I.log.append(('mutate', n, e.get('sp'), _tgt(a0)))
         dst = a0; src = deref(args[1])
         if isinstance(dst, SeqV) and isinstance(src, SeqV):
             # whole-sequence overwrite (lengths must agree: copy_from_slice panics otherwise)
@@ -158,8 +173,23 @@ def call(I, name, args, e):
             dst.seq.stores.append((('range', dst.lo, dst.hi), tuple(srcsegs)))
             return UNIT
         return I.top('copy_from_slice %r <- %r' % (dst, src), e)
+    if n in ('core::slice::<impl [T]>::split_at', 'core::slice::<impl [T]>::split_at_mut', 'core::str::<impl str>::split_at'):
+        mid = args[1]
+        if isinstance(a0, SeqV) and is_term(mid):
+            I.guards.append({'cond': cmp('le', mid, seqlen(a0.segs)), 'sp': e.get('sp'), 'kind': 'split_at-bound'})
+            return TupleV([RefV(Cell(SliceV(a0, ZERO, mid))), RefV(Cell(SliceV(a0, mid, seqlen(a0.segs))))])
+        if isinstance(a0, SliceV) and is_term(mid):
+            return TupleV([RefV(Cell(SliceV(a0.seq, a0.lo, add(a0.lo, mid)))), RefV(Cell(SliceV(a0.seq, add(a0.lo, mid), a0.hi)))])
+        return I.top('split_at of %r' % (a0,), e)
+    if n in ('core::slice::<impl [T]>::first', 'core::slice::<impl [T]>::last'):
+        if isinstance(a0, SeqV) and not a0.stores:
+            ln = seqlen(a0.segs)
+            if ln[0] == 'c' and ln[1] > 0:
+                return opt_some(RefV(IndexPlace(I, a0, ZERO if n.endswith('first') else C(ln[1] - 1))))
+            if ln == ZERO: return opt_none()
+        return I.top('first/last of %r' % (a0,), e)
     if n == 'core::slice::<impl [T]>::copy_within':
-        I.log.append(('mutate', n, e.get('sp')))
+        I.log.append(('mutate', n, e.get('sp'), _tgt(a0)))
         s = a0; r = args[1]; dest = args[2]
         if isinstance(s, SeqV) and isinstance(r, RangeV):
             s.stores.append((('within', r.lo, r.hi, dest), None))
@@ -174,6 +204,7 @@ def call(I, name, args, e):
         if isinstance(args[0], RefV): return IterV(a0, True)
         if isinstance(a0, IterV): return a0
         if isinstance(a0, SeqV): return IterV(a0, False)
+        if isinstance(a0, RangeV): return IterV(a0, False, kind='range')
         return I.top('into_iter of %r' % (a0,), e)
     if n == 'core::array::iter::<impl core::iter::IntoIterator for [T; N]>::into_iter':
         return IterV(a0, False)
@@ -226,6 +257,19 @@ def call(I, name, args, e):
     if n.endswith('as core::iter::Iterator>::map') or n == 'core::iter::Iterator::map':
         if isinstance(a0, IterV): return IterV(a0.seq, a0.by_ref, a0.kind, a0.maps + [args[1]], a0.enum)
         return I.top('map over %r' % (a0,), e)
+    if n.endswith('as core::iter::Iterator>::chain') or n == 'core::iter::Iterator::chain':
+        b0 = deref(args[1])
+        if isinstance(b0, SeqV): b0 = IterV(b0, isinstance(args[1], RefV))
+        if isinstance(a0, IterV) and isinstance(b0, IterV) and not a0.maps and not b0.maps and a0.by_ref == b0.by_ref and a0.kind == b0.kind == 'slice':
+            sa, sb = deref(a0.seq), deref(b0.seq)
+            if isinstance(sa, SliceV): r_ = I.slice_segs(sa); sa = SeqV(sa.seq.elem, r_) if r_ is not None else None
+            if isinstance(sb, SliceV): r_ = I.slice_segs(sb); sb = SeqV(sb.seq.elem, r_) if r_ is not None else None
+            if isinstance(sa, SeqV) and isinstance(sb, SeqV) and sa.elem == sb.elem and not sa.stores and not sb.stores:
+                return IterV(SeqV(sa.elem, list(sa.segs) + list(sb.segs)), a0.by_ref, 'slice')
+        return I.top('chain of %r and %r' % (a0, b0), e)
+    if n.endswith('as core::iter::Iterator>::enumerate') or n == 'core::iter::Iterator::enumerate':
+        if isinstance(a0, IterV): return IterV(a0.seq, a0.by_ref, a0.kind, a0.maps + ['enumerate'], a0.enum)
+        return I.top('enumerate over %r' % (a0,), e)
     if n.endswith('as core::iter::Iterator>::copied') or n.endswith('as core::iter::Iterator>::cloned') or n in ('core::iter::Iterator::copied', 'core::iter::Iterator::cloned'):
         if isinstance(a0, IterV): return IterV(a0.seq, False, a0.kind, a0.maps, a0.enum)
     if n.endswith('as core::iter::Iterator>::sum') or n == 'core::iter::Iterator::sum':
@@ -252,7 +296,7 @@ def call(I, name, args, e):
                 out.segs.append(('int', v, 1) if out.is_bytes() else ('elem', v))
             I.iterate(args[0], step, e)
             del I.frame().vars[key_]
-            I.log.append(('mutate', n, e.get('sp')))
+            I.log.append(('mutate', n, e.get('sp'), _tgt(a0)))
             return cell.v
         return I.top('collect into %s' % ty, e)
     if n in ('core::slice::<impl [T]>::to_vec', 'alloc::slice::<impl [T]>::to_vec', 'alloc::slice::<impl [T]>::to_vec_in'):
@@ -281,12 +325,12 @@ def call(I, name, args, e):
             pos = 0
             for k_, sg in enumerate(s.segs):
                 if pos == idx[1]:
-                    s.segs.insert(k_, ('int', v, 1) if s.is_bytes() else ('elem', v)); I.log.append(('mutate', n, e.get('sp'))); return UNIT
+                    s.segs.insert(k_, ('int', v, 1) if s.is_bytes() else ('elem', v)); I.log.append(('mutate', n, e.get('sp'), _tgt(a0))); return UNIT
                 l = seglen(sg)
                 if l[0] != 'c': break
                 pos += l[1]
             if pos == idx[1] and all(seglen(x)[0] == 'c' for x in s.segs):
-                s.segs.append(('int', v, 1) if s.is_bytes() else ('elem', v)); I.log.append(('mutate', n, e.get('sp'))); return UNIT
+                s.segs.append(('int', v, 1) if s.is_bytes() else ('elem', v)); I.log.append(('mutate', n, e.get('sp'), _tgt(a0))); return UNIT
         return I.top('Vec::insert at a position that is not a constant segment boundary', e)
     if n.endswith('as core::iter::Iterator>::count') or n == 'core::iter::Iterator::count':
         if isinstance(a0, IterV): return seqlen(a0.seq.segs) if isinstance(a0.seq, SeqV) else I.top('count', e)
@@ -349,6 +393,15 @@ def call(I, name, args, e):
         if op in ('wrapping_add', 'wrapping_sub') and not (is_term(a0) and is_term(args[1])): return I.top(op + ' of non-scalars', e)
         if op == 'wrapping_add': return wrap(add(a0, args[1]), 1 << bits)
         if op == 'wrapping_sub': return wrap(sub(a0, args[1]), 1 << bits)
+        if op == 'wrapping_neg' and is_term(a0): return wrap(neg(a0), 1 << bits)
+        if op == 'wrapping_mul' and is_term(a0) and is_term(args[1]): return wrap(mul(a0, args[1]), 1 << bits)
+        if op in ('saturating_sub',) and is_term(a0) and is_term(args[1]): return ite(cmp('le', args[1], a0), sub(a0, args[1]), ZERO)
+        if op in ('saturating_add',) and is_term(a0) and is_term(args[1]):
+            r_ = add(a0, args[1]); return ite(cmp('le', r_, C((1 << bits) - 1)), r_, C((1 << bits) - 1))
+        if op in ('from_le_bytes',) and isinstance(a0, SeqV) and a0.is_bytes() and not a0.stores:
+            sg = norm_segs(a0.segs)
+            if len(sg) == 1 and sg[0][0] == 'int' and sg[0][2] == bits // 8: return sg[0][1]
+            return I.top('from_le_bytes of %r' % (a0,), e)
         if op == 'to_le_bytes': return SeqV('u8', [('int', a0, bits // 8)])
         if op == 'to_be_bytes': return I.top('big-endian bytes', e)
         if op == 'pow':
